@@ -45,7 +45,7 @@ INT = [((13, 3, 3), True), ((13, 3, 4), False), ((63, 1, 3), True), ((64, 2, 3),
 for (w, b, k), quick in INT:
     for m in ('limit', 'budget'):
         inst(P, 'c14w_int_%s_w%d_b%d_k%d' % (m, w, b, k), 'c14w::int_fail(%d, %d, %d, %s)' % (w, b, k, MODEL[m]),
-             tier='quick' if quick and (m == 'limit' or (w, b, k) == (63, 1, 3)) else 'thorough', cap=600,
+             tier='quick' if quick and (m == 'limit' or (w, b, k) == (63, 1, 3)) else 'thorough', cap=600, mem=10 if k >= 5 else 4,
              shape={'width': w, 'buf_items': b, 'pushes': k, 'fault': m},
              desc='IntVectorWriter under every %s that rules out the complete file: creation succeeds; then push panics (documented; path cut at the real unwrap) or close() Err -- never Ok; retry Err too'
                   % ('file-size limit 32 <= L < size' if m == 'limit' else 'total byte budget 32 <= b < bytes of a successful run (short or abrupt)'), **FAIL)
@@ -56,13 +56,32 @@ for (bb, ops, h), quick in RAW:
     tag = '_'.join('b' if o == B else str(o) for o in ops)
     for m in ('limit', 'budget'):
         inst(P, 'c14w_raw_%s_buf%d_h%d_%s' % (m, bb, h, tag), 'c14w::raw_fail(%d, %s, %d, %s)' % (bb, lit, h, MODEL[m]),
-             tier='quick' if quick and m == 'limit' else 'thorough', cap=600,
+             tier='quick' if quick and m == 'limit' else 'thorough', cap=600, mem=10 if bb >= 128 else 4,
              shape={'buf_bits': bb, 'ops': ['bit' if o == B else o for o in ops], 'user_header_words': h, 'fault': m},
              desc='RawVectorWriter (close_with_header, %d-word user header) under every %s fault that rules out the complete file: never Ok from close' % (h, m), **FAIL)
 for (w, b, k) in ((13, 3, 4), (64, 1, 3), (63, 1, 4)):
     inst(P, 'c14w_int_limit_exact_w%d_b%d_k%d' % (w, b, k), 'c14w::int_limit_exact(%d, %d, %d)' % (w, b, k), tier='quick' if w == 63 else 'thorough',
          shape={'width': w, 'buf_items': b, 'pushes': k}, desc='positive control: file-size limit == final size suffices, file complete', **GHOST)
 inst(P, 'c14w_open_fail', 'c14w::open_fail(13, 3)', desc='open() fails: both writers return Err from creation, nothing opened/closed/written', **GHOST)
+
+# Instances in which the REAL code drops an io::Error (Drop of a writer whose close() fails). The drop glue of
+# io::Error is opaque to symbolic execution and recurses through an unresolved indirect call up to the recursion
+# bound = --unwind (measured: x2.8 per level, unwind 98 does not finish). So: small global unwind, true bounds per loop.
+DEEP = dict(stubs=['ghost_file', 'push_panic_cut', 'no_eintr'], models=['close_model.c'], unwind=3, cap=900, cap_thorough=1800, mem=12, tier='thorough', unwindset={
+    r'io::Write>::write_all$': 3,
+    r'^c12::|^c14w::|^c05::|^stubs_file::': 98,
+    r'File as std::io::Write>::write$': 98,       # ghost_write (a stub carries the name of what it replaces)
+    r'^__rust_|^mem(cmp|cpy|set|move)$|^strlen$': 98,
+    r'path::|slice::Iter|slice::memchr|os_str::': 12,
+})
+for m in ('limit', 'budget'):
+    inst(P, 'c14w_create_fail_%s' % m, 'c14w::create_fail(13, 3, %s)' % MODEL[m],
+         shape={'width': 13, 'buf_items': 3, 'fault': m + ' < 32 bytes'},
+         desc='creation under every %s too small for the placeholder header: with_buf_len returns Err, no panic (incl. Drop of the half-built writer)' % m, **DEEP)
+for (w, b, k) in ((13, 3, 1), (13, 3, 3)):
+    inst(P, 'c14w_drop_after_fail_w%d_b%d_k%d' % (w, b, k), 'c14w::drop_after_fail(%d, %d, %d)' % (w, b, k),
+         shape={'width': w, 'buf_items': b, 'pushes': k, 'fault': 'limit'},
+         desc='close() fails under every file-size limit 32 <= L < size, then the open writer is dropped: errors ignored, no panic, descriptor closed once', **dict(DEEP, unwind=2))
 
 extra(P, assumptions=[
     'c14w failing sink: a Write impl in the harness that accepts b bytes in total, b < size symbolic; the write crossing the budget is short or fails outright (symbolic choice); later writes fail with io::ErrorKind::Other; the real write_all loop runs over it; std::io::Error::is_interrupted is stubbed to false (no error in these harnesses has kind Interrupted; the tag bits of io::Error are opaque to symbolic execution, the retry arm of write_all would otherwise stay open)',
@@ -73,7 +92,7 @@ extra(P, assumptions=[
     'c14w: results of type io::Result are inspected with is_err() and then forgotten (mem::forget) in the harness, writers are forgotten after a failed close: running the drop glue of io::Error does not finish under CBMC (indirect call through core::io::OsFunctions with every drop function as candidate, recursion up to the unwind bound)',
 ], coverage={'outside_bounds': list(_registry._EXTRA.get(P, {}).get('coverage', {}).get('outside_bounds', [])) + [   # extra() replaces the list: keep what kvlib/props/c14.py (loaded first) registered
     'c14w: writer shapes beyond those listed (<= 6 pushes, buffers <= 128 bits, files <= 96 bytes); the 8 MiB default buffer of ::new',
-    'c14w NOT DECIDED (attempted, CBMC out of memory or spurious alarm): creation of a writer under a fault that fails the placeholder header (with_buf_len must return Err; the half-built writer is dropped inside it); Drop of a writer whose close() failed ("errors are ignored", must not panic); a retry of RawVectorWriter::close() after a failed close (spurious __rust_dealloc alarm that does not reproduce natively; the retry is decided for IntVectorWriter::close())',
+    'c14w: Drop of a writer whose close() failed and creation under a fault run the real drop glue of io::Error: only decided at recursion bound 2-3 with per-loop bounds (instances c14w_create_fail_*, c14w_drop_after_fail_*, thorough tier); at unwind 3 the 3-push drop instance ran out of 12 GB',
     'c14w: a mutant that swallows the flush error by DROPPING it (let _ = self.flush(..)) makes the instance run out of memory (inconclusive, exit 2), it is only reported as VIOLATION when the error is swallowed without running its drop glue',
     'c14w: transient faults. Observed natively outside the bound (not an instance): after close() failed with a partial write under RLIMIT_FSIZE, lifting the limit and calling close() again returns Ok(()) and leaves a file with the partial bytes duplicated (44 instead of 40 bytes for 3 x 13 bit)',
     'c14w: errors from seek(2)/close(2) (the writers ignore close errors by design: File is dropped); what the file contains after a reported failure',
